@@ -122,6 +122,6 @@ Example composes_is_remapping_ex :
   let text := [97; 195; 169; 98; 10; 99; 100; 101] in
   let ms := [mkMapping 0 0 2 7 1 None; mkMapping 0 2 1 5 5 (Some 1); mkMapping 1 2 0 9 0 None] in
   let evs := [(0, 0, []); (3, 1, [120; 32]); (6, 0, [121; 10; 32; 32]); (7, 2, [122])] in
-  (length (abs_of (builder_spec_ops text false evs [10]) 0) = 4 /\
-   length (flat_map (remap_abs ms) (abs_of (builder_spec_ops text false evs [10]) 0)) = 3)%nat.
+  let a := abs_of (builder_spec_ops text false evs [10]) 0 in
+  length a = 4%nat /\ length (flat_map (remap_abs ms) a) = 3%nat.
 Proof. vm_compute. split; reflexivity. Qed.
